@@ -30,7 +30,15 @@ type SessionWorld struct {
 	streams map[uint64][]byte
 	// Wire collects every datagram ever emitted (for the confidentiality scan)
 	Wire [][]byte
+	// acks[i]: the genuine ClientAck of client i's handshake (op hsdup delivers it once more)
+	acks [][]byte
+	// lastDeadline: the latest handshake deadline any client was dialled with
+	lastDeadline time.Time
 }
+
+// HSTimeout is the server's handshake timeout in a SessionWorld: short, so that the timers armed
+// by the handshakes fire during a case (they must find nothing to do: the handshakes completed).
+const HSTimeout = 400 * time.Millisecond
 
 const maxStream = 3*transport.MaxPlaintextSize + 64
 
@@ -80,13 +88,18 @@ func (w *SessionWorld) Close() {
 }
 
 // NewSessionWorld performs n honest discoverable handshakes.
-func NewSessionWorld(n, capacity int) (*SessionWorld, error) {
+// HSDeadlineIn: in a timer world every client is dialled with an absolute handshake deadline this
+// far ahead (and no relative timeout), as net.Dialer.Deadline gives it; `hswait` sleeps past it.
+const HSDeadlineIn = 3 * time.Second
+
+func NewSessionWorld(n, capacity int, timers bool) (*SessionWorld, error) {
 	p, id := sharedPKI()
 	w := &SessionWorld{N: n, pkts: map[string][]byte{}, streams: map[uint64][]byte{}}
 	w.Srv = NewSrv(transport.ServerConfig{
 		KeyPair: id.Key, KEMKeyPair: id.KEM, Certificate: id.Leaf, Intermediate: id.Inter,
 		ClientVerify:                    p.ClientVerify(PolicyStore),
 		MaxBufferedPacketsPerConnection: capacity, MaxPendingConnections: 16,
+		HandshakeTimeout: HSTimeout,
 	})
 	for i := 0; i < n; i++ {
 		k := keys.GenerateNewX25519KeyPair()
@@ -95,11 +108,20 @@ func NewSessionWorld(n, capacity int) (*SessionWorld, error) {
 			Verify:             transport.VerifyConfig{Store: p.Store, Name: certs.RawStringName(ServerName)},
 			MaxBufferedPackets: capacity,
 		}
+		if timers {
+			cfg.HSDeadline = time.Now().Add(HSDeadlineIn)
+			w.lastDeadline = cfg.HSDeadline
+		}
 		cl := NewCli(Addr(i), cfg)
 		all := Pump(w.Srv, cl, Addr(i), nil)
+		var ack []byte
 		for _, d := range all {
 			w.Wire = append(w.Wire, d.Data)
+			if len(d.Data) > 0 && d.Data[0] == byte(transport.MessageTypeClientAck) {
+				ack = d.Data
+			}
 		}
+		w.acks = append(w.acks, ack)
 		if !cl.Finished() || cl.HSErr != nil {
 			return w, fmt.Errorf("honest handshake %d failed: %v", i, cl.HSErr)
 		}
@@ -421,6 +443,28 @@ func (w *SessionWorld) Exec(f []string) string {
 			binary.BigEndian.PutUint64(data[8:16], ctr)
 		}
 		return w.deliver(f[1], int(from), data)
+	case len(f) == 2 && f[0] == "hsdup":
+		// the network delivers client i's ClientAck once more, from the address it was sent from: the
+		// cookie still opens, so the server starts a second, never completed handshake for that address
+		i, ok := u(f[1])
+		if !ok || int(i) >= w.N {
+			return "bad-op"
+		}
+		if w.acks[i] == nil {
+			return "no-ack-captured"
+		}
+		r := w.Srv.Deliver(w.acks[i], Addr(int(i)))
+		for _, d := range w.Srv.Conn.Drain() { // its ServerAuth goes nowhere
+			w.Wire = append(w.Wire, d.Data)
+		}
+		return r
+	case len(f) == 1 && f[0] == "hswait":
+		// every handshake timer armed so far fires
+		time.Sleep(HSTimeout + 150*time.Millisecond)
+		if d := time.Until(w.lastDeadline); d > 0 {
+			time.Sleep(d + 50*time.Millisecond) // … and every client's handshake deadline has passed
+		}
+		return "ok"
 	case len(f) == 2 && f[0] == "rd":
 		r, ok := w.parseEp(f[1])
 		if !ok {
